@@ -35,7 +35,10 @@ def resolve_ctx(ctx):
     return out
 
 
-POOL_WORD = ["ab", "xé", "Qж", "z中"]
+# filler words of template text.  Each carries one character that str.splitlines() treats as a line boundary but
+# that is not a line end of a template (only "\n" is): form feed, LINE SEPARATOR, NEL, FILE SEPARATOR.
+POOL_WORD = ["a\x0cb", "x\u2028é", "Q\x85ж", "z\x1c中"]
+PLAIN_WORD = "ab"  # used by corpus(): plain text for the cross-path property
 POOL_VAL = ["val", "Väl", "vф", "中v"]
 
 
